@@ -530,7 +530,14 @@ func (s *Server) setConfig(dc *jsonDNSConfig) (shouldRestart bool) {
 	}
 
 	if dc.ProtectionEnabled != nil {
-		s.dnsFilter.SetProtectionEnabled(*dc.ProtectionEnabled)
+		if *dc.ProtectionEnabled {
+			// Enabling the protection also cancels a pause that is still
+			// running, the same way POST /control/protection does, since
+			// otherwise the protection stays off until the end of the pause.
+			s.dnsFilter.SetProtectionStatus(true, nil)
+		} else {
+			s.dnsFilter.SetProtectionEnabled(false)
+		}
 	}
 
 	if dc.UpstreamMode != nil {
